@@ -50,7 +50,7 @@ theorem sf_maildirWrite (env : PEnv) {w : World} {md : Maildir} {ms : MsgSt} {sh
   split
   · exact WritePost.unchanged hlk hlt hf hloc (Mid.refl w)
   rename_i fl _
-  refine wpS_bind_mono (wpS_of_wp b (frame_genname env md (some fl) hsh hps hdd 4096 _ (Mid.refl w))) ?_
+  refine wpS_bind_mono (wpS_of_wp b (frame_genname env md (some fl) hsh hps hdd gennameAttempts _ (Mid.refl w))) ?_
   rintro b1 g w2 ⟨hnone, hsome⟩
   cases g with
   | none => exact WritePost.unchanged hlk hlt hf hloc (hnone rfl)
